@@ -24,7 +24,7 @@ func init() {
 	Registry["C17"] = &Prop{
 		Plan: func(tier string) Plan {
 			return Plan{Level: "exploration", NCases: pick(tier, 32, 3200), Batch: 1, CaseTimeout: 120, Par: 16,
-				Rule: "one case = a PRNG history over Event keys (<prefix>/events/ns/x) and look-alikes (<prefix>/pods/events/x, <prefix>/eventsx/y, <prefix>/cm/ns/events/, keys outside the prefix) on an engine without native TTL (TiKV mock; memkv behind a wrapper reporting SupportTTL()=false) with the built-in compaction expiry — either the exported scanner with Config.TTL 300ms driven directly, or a whole backend with the events TTL set to 1s through the verif hook — or on an engine with native TTL (memkv, Badger) with TTL 1s; sequence: writes, Compact (mark), pause, updates of some events (younger), Compact; control cases use TTL 1h. A watcher stays open throughout. " +
+				Rule: "one case = a PRNG history over Event keys (<prefix>/events/ns/x) and look-alikes (<prefix>/pods/events/x, <prefix>/eventsx/y, <prefix>/cm/ns/events/, keys outside the prefix) on an engine without native TTL (TiKV mock; memkv behind a wrapper reporting SupportTTL()=false) with the built-in compaction expiry — either the exported scanner with Config.TTL 300ms driven directly, or a whole backend with the events TTL set to 1s through the verif hook — or on an engine with native TTL (memkv, Badger) with TTL 1s; sequence: writes (some events deleted and created again at once), Compact (mark), pause, updates of some events (younger), Compact; control cases use TTL 1h. A watcher stays open throughout. " +
 					"oracle: a key that lost its index or any version without a client delete/compaction-eligible reason must be an Event directly under the prefix, its newest write must have BEGUN at least TTL before the expiry COULD have happened (monotonic clock; so load can only make a case inconclusive, never an alarm), it must have lost index and all versions together, read absent at latest and be creatable again; the watcher saw only client writes; with TTL 1h nothing is removed. " +
 					"non-trivial = case in which >=1 expiry actually happened and >=1 look-alike and >=1 younger event were present; distinct by (kind, key set, expired set)",
 				Assumptions: []string{"the backend's TTL is whole seconds, so backend-level cases pause 1.3-1.6 s; Badger keeps expiry in whole seconds, so its cases use TTL 3 s and allow one second of slack", "expiry is never demanded, only constrained"},
@@ -157,6 +157,21 @@ func runC17(c *harness.Case) {
 		if !write(k, harness.SeqOp{Kind: "create", Key: k.key, Val: []byte("v1")}) {
 			return
 		}
+	}
+	// events that are deleted and created again before any compaction (the new index record replaces a deletion
+	// marker - a different storage write than a first creation - and must carry the expiry all the same)
+	for _, k := range []*c17Key{keys[0], keys[2], keys[3]} {
+		if r.Intn(2) == 0 {
+			continue
+		}
+		lv := m.Live(k.key)
+		if lv == nil || !write(k, harness.SeqOp{Kind: "delete", Key: k.key, Exp: lv.Rev}) {
+			return
+		}
+		if !write(k, harness.SeqOp{Kind: "create", Key: k.key, Val: []byte("v1-again")}) {
+			return
+		}
+		c.Stat("keys_recreated_over_their_deletion_marker", 1)
 	}
 	// some multi-version keys
 	for i := 0; i < 3; i++ {
